@@ -108,7 +108,8 @@ func (r *rt) gate(ctx context.Context, kind string, h, v int) bool {
 	id := r.nextCall
 	block := r.intn(100) < r.blockProb[kind]
 	// worst-case consumer: a call about a height that an accepted sync has already left behind waits for its context only
-	behind := kind != "commit" && int64(h) <= atomic.LoadInt64(&r.maxOkSync) && r.intn(2) == 0
+	// (the commit callback included: a sync with the block of the height being committed tells the node to leave it)
+	behind := int64(h) <= atomic.LoadInt64(&r.maxOkSync) && r.intn(2) == 0
 	var bc *blockedCall
 	if block || behind {
 		block = true
@@ -663,6 +664,27 @@ func runRuntime(p rtParams, runId int) []rtEvent {
 			r.releaseSome(false)
 		case x < 68:
 			r.fireElection(rnd.Intn(5) == 0)
+		case x < 71:
+			// directed: node sync with the block of the very height a consumer call is blocked in (commit callback
+			// included) - the node is told to leave that height; from now on the call waits for its context only
+			r.gateMu.Lock()
+			var pick *blockedCall
+			for _, bc := range r.blocked {
+				if pick == nil || bc.id < pick.id {
+					pick = bc
+				}
+			}
+			if pick != nil {
+				pick.untilCtx = true
+			}
+			r.gateMu.Unlock()
+			if pick != nil {
+				r.log("driver.sync_over_blocked_call", obj{"call": pick.id, "kind": pick.kind, "h": pick.h})
+				r.updateState(ctx, pick.h, "driver")
+				if pick.h > maxB {
+					maxB = pick.h
+				}
+			}
 		case x < 80:
 			h, _ := r.hvAbs()
 			b := h - 2 + rnd.Intn(5) // older, equal, newer
